@@ -10,6 +10,7 @@ import core
 
 KINDS_ADD = {"S1": ("addSec", 1), "M1": ("addMin", 1), "H1": ("addHour", 1), "D1": ("addDay", 1),
              "D31": ("addDay", 31), "D365": ("addDay", 365), "B1": ("addSec", -1), "S3661": ("addSec", 3661),
+             "MB45": ("addMin", -45), "HB5": ("addHour", -5),
              "DM1": ("addDay", -1), "DMD": ("addDay", None)}      # None: minus the day of the month of the state
 DAYMS = 86400000
 
